@@ -78,6 +78,29 @@ void __wrap___cxa_guard_release(void* g) { __real___cxa_guard_release(g); --sche
 void __wrap___cxa_guard_abort(void* g) { __real___cxa_guard_abort(g); --sched::tl_nopreempt; }
 }
 
+// libc functions with hidden static state: a call from library code on two different threads is shared mutable state
+// the load/store monitor cannot see (it lives in libc), so the calls themselves are recorded (link-time --wrap)
+namespace unsafe { static uint32_t callers[16]; static const char* names[16] = { "inet_ntoa", "localtime", "gmtime", "ctime", "asctime", "strtok", "rand", "strerror", "gethostbyname", "ether_ntoa", "getservbyname", "setlocale" };
+    static inline void note(int i) { if (mon::on && mon::tl_logical >= 0) callers[i] |= 1u << mon::tl_logical; } }
+#include <arpa/inet.h>
+#include <netdb.h>
+#include <netinet/ether.h>
+#include <locale.h>
+extern "C" {
+char* __real_inet_ntoa(struct in_addr); char* __wrap_inet_ntoa(struct in_addr a) { unsafe::note(0); return __real_inet_ntoa(a); }
+struct tm* __real_localtime(const time_t*); struct tm* __wrap_localtime(const time_t* t) { unsafe::note(1); return __real_localtime(t); }
+struct tm* __real_gmtime(const time_t*); struct tm* __wrap_gmtime(const time_t* t) { unsafe::note(2); return __real_gmtime(t); }
+char* __real_ctime(const time_t*); char* __wrap_ctime(const time_t* t) { unsafe::note(3); return __real_ctime(t); }
+char* __real_asctime(const struct tm*); char* __wrap_asctime(const struct tm* t) { unsafe::note(4); return __real_asctime(t); }
+char* __real_strtok(char*, const char*); char* __wrap_strtok(char* a, const char* b) { unsafe::note(5); return __real_strtok(a, b); }
+int __real_rand(void); int __wrap_rand(void) { unsafe::note(6); return __real_rand(); }
+char* __real_strerror(int); char* __wrap_strerror(int e) { unsafe::note(7); return __real_strerror(e); }
+struct hostent* __real_gethostbyname(const char*); struct hostent* __wrap_gethostbyname(const char* n) { unsafe::note(8); return __real_gethostbyname(n); }
+char* __real_ether_ntoa(const struct ether_addr*); char* __wrap_ether_ntoa(const struct ether_addr* a) { unsafe::note(9); return __real_ether_ntoa(a); }
+struct servent* __real_getservbyname(const char*, const char*); struct servent* __wrap_getservbyname(const char* a, const char* b) { unsafe::note(10); return __real_getservbyname(a, b); }
+char* __real_setlocale(int, const char*); char* __wrap_setlocale(int c, const char* l) { unsafe::note(11); return __real_setlocale(c, l); }
+}
+
 // symbol covering an address of the executable's static storage (reads .symtab of /proc/self/exe)
 static std::string static_symbol(uintptr_t addr) {
     static std::vector<std::pair<std::pair<uintptr_t, uintptr_t>, std::string> > syms; static bool loaded = false; static uintptr_t bias = 0;
@@ -208,7 +231,7 @@ struct ThrEngine : Engine {
         { static bool warmed = false; if (!warmed) { warmed = true; for (int t = 0; t < K; ++t) { ThreadState ts; uint64_t h = 0; for (auto& k : ops[t]) h = run_op(k, ts, h); }
             const char* sets[3] = { "ccmp_packets", "tkip_packets", "ccmp_qos_packets" }; for (int i = 0; i < 3; ++i) { ThreadState ts; KV k; k.set("op", "wpa2").set("set", sets[i]); run_op(k, ts, 0); }
             { ThreadState ts; KV k; k.set("op", "frag").set("pl", Bytes(64, 1)).set("mtu", 16).set("id", 1).set("ord", 0); run_op(k, ts, 0); KV d; d.set("op", "dns").set("id", 1).set("n", 2); run_op(d, ts, 0); KV a; a.set("op", "addr").setu("v", 12345); run_op(a, ts, 0); KV b; b.set("op", "build").setu("v", 777); run_op(b, ts, 0); KV w; w.set("op", "wep").set("bad", 0); run_op(w, ts, 0); } } }
-        mon::reset();
+        mon::reset(); memset(unsafe::callers, 0, sizeof unsafe::callers);
         auto sequential = [&]() { for (int t = 0; t < K; ++t) { ThreadState ts; uint64_t h = 0xC18; mon::tl_logical = t; mon::on = true; for (auto& k : ops[t]) h = run_op(k, ts, h); mon::on = false; mon::tl_logical = -1; seq[t] = h; } };
         auto concurrent = [&]() {
             std::vector<std::function<void()> > bodies; for (int t = 0; t < K; ++t) bodies.push_back([&, t]() { ThreadState ts; uint64_t h = 0xC18; mon::tl_logical = t; for (auto& k : ops[t]) h = run_op(k, ts, h); mon::tl_logical = -1; con[t] = h; });
@@ -224,6 +247,7 @@ struct ThrEngine : Engine {
             else if (read_syms.size() < 64) { uint32_t r = e.readers; if (r & (r - 1)) read_syms.insert(static_symbol(e.a << 3)); } }
         for (auto& s : read_syms) st.inc("probe.static_read_by_2+_threads." + s.substr(0, 60));
         if (!shared.empty()) { std::string first = *shared.begin(); for (char& c : first) if (c == ' ') c = '_'; std::string all; for (auto& s : shared) all += s + "; "; return Verdict::bad("thr:shared-write:" + first, "hidden shared mutable state inside libtins, written by one thread and accessed by another: " + all); }
+        for (int i = 0; i < 12; ++i) { uint32_t m = unsafe::callers[i]; if (m) st.inc(std::string("probe.libc_call.") + unsafe::names[i]); if (m & (m - 1)) return Verdict::bad(std::string("thr:unsafe-libc:") + unsafe::names[i], std::string("library code called ") + unsafe::names[i] + "(), which keeps hidden static state, from more than one thread"); }
         // (b) result equality
         for (int t = 0; t < K; ++t) { tr.add(fmt("thread %d seq=%llx con=%llx", t, (unsigned long long)seq[t], (unsigned long long)con[t])); if (seq[t] != con[t]) { std::string kinds; std::set<std::string> ks; for (auto& k : ops[t]) ks.insert(k.str("op")); for (auto& s : ks) kinds += s + ","; return Verdict::bad("thr:result-differs", fmt("thread %d (ops: %s) computed other results under interleaving than alone", t, kinds.c_str())); } }
         uint64_t wsig = 0; for (auto& l : p.steps) wsig = mix64(wsig, fnv1a(KV(l).str("op")));
